@@ -92,9 +92,10 @@ func Color(r *run.Rng) ivg.Color {
 	case 2:
 		return ivg.RGBAColor(AnyRGBA(r))
 	case 3:
-		return ivg.PaletteIndexColor(uint8(r.Intn(64)))
+		// the constructors take any uint8 and reduce it modulo 64
+		return ivg.PaletteIndexColor(r.Byte())
 	case 4:
-		return ivg.CRegColor(uint8(r.Intn(64)))
+		return ivg.CRegColor(r.Byte())
 	case 5:
 		return ivg.RGBAColor(GradientValue(r))
 	}
